@@ -466,6 +466,18 @@ O(id='NULL_asn_encode', props=['C07', 'C02'], kind='bounded', entry='h_NULL_asn_
                (r'der_encoder\)$', ['NULL_encode_der']), (r'oer_encoder\)$', ['NULL_encode_oer'])],
   unwind=10, bound='the NULL type through asn_encode for DER and OER, callback failing at any call', min_props=30, timeout=600)
 
+# ---------------------------------------------------------------- real primitive encoders through the API
+ALLSK = [SK + f for f in ('asn_application.c', 'NULL.c', 'BOOLEAN.c', 'NativeInteger.c', 'NativeInteger_oer.c', 'INTEGER.c', 'INTEGER_oer.c', 'OCTET_STRING.c', 'OCTET_STRING_oer.c',
+         'BIT_STRING.c', 'BIT_STRING_oer.c', 'OBJECT_IDENTIFIER.c', 'der_encoder.c', 'oer_encoder.c', 'per_encoder.c', 'xer_encoder.c', 'asn_bit_data.c', 'per_support.c',
+         'per_opentype.c', 'oer_support.c', 'oer_decoder.c', 'ber_tlv_tag.c', 'ber_tlv_length.c', 'asn_codecs_prim.c', 'ber_decoder.c', 'asn_internal.c', 'constr_TYPE.c')]
+for _t, _tn in ((0, 'BOOLEAN'), (1, 'NativeInteger'), (2, 'INTEGER'), (3, 'OCTET_STRING'), (4, 'BIT_STRING'), (5, 'OBJECT_IDENTIFIER')):
+    for _sy, _sn in (('ATS_DER', 'DER'), ('ATS_CANONICAL_OER', 'OER'), ('ATS_UNALIGNED_CANONICAL_PER', 'UPER')):
+        O(id='api_%s.%s' % (_tn, _sn), props=['C07'], kind='bounded', entry='h_type_asn_encode', harness='harness/h_type_api.c', units=[SK + 'asn_application.c'],
+          defines=['VF_TYPE=%d' % _t, 'VF_SYN=%s' % _sy], functions=['asn_encode', '%s encoder (%s)' % (_tn, _sn)], link=ALLSK, stubs=['stubs/bsearch.c'],
+          fp_restrict=[(r'callback_failure_catch_cb::1::key\.callback', ['vf_cb'])],
+          unwind=12, cbmc=['--unwindset', 'asn_put_few_bits:3,uper_put_constrained_whole_number_u:4', '--no-malloc-may-fail'],
+          bound='values of at most 3 octets (4 for the native integer), callback failing at any of the first 5 calls', min_props=30, timeout=900, tier='experimental')
+
 # ---------------------------------------------------------------- NativeReal over DER
 O(id='NativeReal_encode_der', props=['C02', 'C13', 'C14'], kind='width', entry='h_NativeReal_encode_der', harness='harness/h_nativereal.c',
   units=[SK + 'NativeReal.c', SK + 'REAL.c'], functions=['NativeReal_encode_der', 'asn_double2REAL', 'der_encode_primitive'], proves=['NativeReal_encode_der'],
